@@ -150,6 +150,15 @@ def run(ctx):
                 tb = side_tokens(cf, t["args"][2])
                 rep.check(any("head_key" in x for x in ta) and any("ingress_id" in x for x in tb), "C08.R3", "%s:gate-operands" % label,
                           "gate tests (head_key, ingress_id)", "gate operands are %s / %s" % (sorted(ta), sorted(tb)), site=cf.loc())
+    # who may put an envelope into a head inbox: only WorldlineRuntime::ingest, whose committed-ingress gate is decided above.  Any
+    # other caller (a "the route is already resolved" shortcut) bypasses the committed set: a committed intent is staged again.
+    inbox_callers = sorted({g.id for g in prog.fns.values() if g.crate == "warp_core" and "::tests" not in g.id
+                            and any(b["t"]["t"] == "call" and (g.callee_of(b["t"]) or "").endswith("HeadInbox::ingest") for b in g.blocks)})
+    rt_ing = prog.fn(CO + "WorldlineRuntime::ingest").id
+    extra = [c for c in inbox_callers if c != rt_ing]
+    rep.check(rt_ing in inbox_callers and not extra, "C08.R3", "inbox-ingest:only-through-the-committed-gate", "HeadInbox::ingest is called only by WorldlineRuntime::ingest",
+              "HeadInbox::ingest is also called by %s, which does not pass the committed-ingress gate of WorldlineRuntime::ingest: an intent already committed on that head can be "
+              "staged and committed again" % [c.replace("warp_core::", "") for c in extra][:3], site=extra[0] if extra else rt_ing)
     # occupied slot never overwritten
     esw = [b for b, blk in enumerate(ing.blocks) if blk["t"]["t"] == "sw" and any(st[0] == "a" and st[2]["r"] == "disc" and "btree_map::Entry" in st[2].get("adt", "") for st in blk["st"])]
     ok_occ = False
@@ -224,3 +233,11 @@ def run(ctx):
     cmp_ = lc.call_sites(r"compute_ingress_id$")
     rep.check(bool(srt) and bool(ded) and bool(cmp_) and dominates(lc, srt, cmp_) is None and dominates(lc, ded, cmp_) is None and dominates(lc, srt, ded) is None,
               "C08.R5", "envelope:parents-sorted-deduped-before-hash", "sort, dedup, then hash", "causal parents are hashed without sort+dedup first", site=lc.loc())
+    # the canonical order must be a TOTAL order on the whole parent (kind and reference): a key that lets two different parents tie
+    # leaves their order to the caller and lets `dedup` miss a repeat, so the same parent set hashes to different ids
+    whole_sort = lc.call_sites(r"\]>::sort(_unstable)?$|::sort(_unstable)?$")
+    whole_dedup = lc.call_sites(r"::dedup$")
+    keyed = lc.call_sites(r"::sort(_unstable)?_by(_key|_cached_key)?$|::dedup_by(_key)?$")
+    rep.check(bool(whole_sort) and bool(whole_dedup) and not keyed, "C08.R5", "envelope:parents-ordered-by-their-whole-value", "sort and dedup use the parents' own total order",
+              "causal parents are sorted/deduplicated through a projection (%s): parents that differ outside the projected key tie, so the stored order — and the ingress id — depends on "
+              "the order the caller listed them in" % [(lc.callee_of(lc.blocks[b]["t"]) or "").rsplit("::", 1)[-1] for b in keyed][:2], site=lc.loc())
